@@ -153,12 +153,13 @@ def accumulate_indices_means_vars(data, means):
     # they get accumulated in the next function
     means_sum = np.zeros((n_clusters, n_features), like=data)
     variances_sum = np.zeros((n_clusters, n_features), like=data)
+    # The sums are taken about the cluster's centroid (the same for every
+    # block), not about the origin: sum(x**2)/n - mean**2 cancels
+    # catastrophically when the data lie far from the origin.
     for i in range(n_clusters):
-        means_sum[i] = np.sum(data[closest_centroid_indices == i], axis=0)
-    for i in range(n_clusters):
-        variances_sum[i] = np.sum(
-            data[closest_centroid_indices == i] ** 2, axis=0
-        )
+        deviations = data[closest_centroid_indices == i] - means[i]
+        means_sum[i] = np.sum(deviations, axis=0)
+        variances_sum[i] = np.sum(deviations**2, axis=0)
     return closest_centroid_indices, means_sum, variances_sum
 
 
@@ -178,7 +179,7 @@ def reduce_indices_means_vars(stats):
     # An empty cluster gets a zero weight and a zero variance (not 0/0)
     counts = np.maximum(weights_count, 1)[:, None]
     means = means_sum / counts
-    variances = (variances_sum / counts) - (means**2)
+    variances = np.maximum((variances_sum / counts) - (means**2), 0)
 
     return variances, weights
 
